@@ -13,6 +13,7 @@ PROP = {
              "transaction of the branching flow gets exactly the actions its own headers determine; lookups never fail. Non-trivial: >=2 transactions were in flight at the same time (measured). "
              "distinct = canonical JSON of the workload parameters"),
     "assumptions": [
+        "unit TestVacuumKeepsEveryRegistration: the background removal of per-transaction state (MapVacuum, used for policy version pins and concurrency slots) on a virtual clock, with registrations forced inside a running pass; a key must stay until its time-to-live has passed and must be gone after time-to-live plus two ticks",
         "the race detector has no false positives but only sees interleavings that happen: a silent run is not proof of absence",
         "a race is identified by the unordered pair of innermost lunar functions of the two accesses",
         "Queue, Retry and cache processors and the HAR collector are not part of the workloads",
@@ -20,9 +21,10 @@ PROP = {
     "units": [
         dict({"pkg": "c18", "test": "TestWorkloads", "quick": 60, "thorough": 600, "shards": 16}, **_RACE),
         dict({"pkg": "c18", "test": "TestPolicyAccessorWorkload", "quick": 60, "thorough": 600, "shards": 16}, **_RACE),
+        dict({"pkg": "c18", "test": "TestVacuumKeepsEveryRegistration", "quick": 1500, "thorough": 20000, "shards": 8}, **_RACE),
         dict({"pkg": "c18", "test": "TestManagerReloadWorkload", "quick": 75, "thorough": 600, "shards": 1}, **_RACE),
     ],
-    "technique": "generated concurrent workloads under the Go race detector (happens-before oracle, reports reduced to normalised signatures) plus serialisability checks of the verdicts",
+    "technique": "generated concurrent workloads and forced interleavings under the Go race detector (happens-before oracle, reports reduced to normalised signatures) plus serialisability checks of the verdicts",
     "level_text": ("generated concurrent workloads are executed against the real engine in a race-detector build; any unsynchronised access to engine state that the schedule exhibits is reported "
                    "(minus listed findings), and the verdicts are compared with what every one-at-a-time order would give. Search over schedules the Go scheduler happens to produce, not proof"),
     "level_note": "needs hook H1; race build needs CGO (gcc present); misses are possible, false positives are not",
